@@ -459,7 +459,11 @@ func scenTxNoInterval(st *ekit.Stats, tier string) {
 	var nt notes
 	var jobs []func()
 	for _, pat := range txDuplexNoInterval {
-		for _, n := range []int{1, 2, 3} {
+		// Without --send-interval macat's duplex mode is "send once, then receive"; --count then
+		// governs the receive phase ("Repeat COUNT times" does not say which).  The property's
+		// "number of times requested" is therefore only unambiguous for n = 1 here; n > 1 is
+		// asserted in tx-data-file-count, where --send-interval makes every repetition a send.
+		for _, n := range []int{1} {
 			jobs = append(jobs, txJob(st, "tx-nointerval", txCase{pat: pat, src: "data-sep", data: []byte("ping"), n: n, extra: []string{"--recv-timeout", "1"}}, &nt))
 		}
 	}
